@@ -19,7 +19,97 @@ use crate::refmodel::encoder::encode;
 use crate::scen::CompressSpec;
 use crate::simio::SimFile;
 
+/// Header-only archives that declare sources of many GiB (descriptors of up to 4 GiB - 1, the
+/// field's range): nothing of that size can be cloned here, but everything the reader derives
+/// from the dictionary -- source offsets, totals, the source index -- is 64-bit arithmetic that
+/// can be checked without the data.
+fn huge_declared_sizes(ctx: &mut Ctx) {
+    use crate::refmodel::format::{build_header, encode_dict, EncodeStyle, RefDesc, RefDict, MAGIC};
+    let n = 2 + gen::draw(4) as usize;
+    let hash_len = gen::gen_hash_length().max(8);
+    let sizes: Vec<u32> = (0..n).map(|_| gen::t(|t| *t.pick(&[u32::MAX, 1 << 31, 3 << 30, (1 << 30) + 1, 0xF000_0001, 65536]))).collect();
+    let descriptors: Vec<RefDesc> = (0..n)
+        .map(|i| RefDesc { checksum: gen::blake2b512(&[i as u8, 0x77])[..hash_len].to_vec(), archive_size: 100 + i as u32, archive_offset: (0..i).map(|k| 100 + k as u64).sum(), source_size: sizes[i] })
+        .collect();
+    let m = n + gen::draw(4) as usize;
+    let mut order: Vec<u32> = (0..n as u32).collect();
+    while order.len() < m {
+        order.push(gen::draw(n as u32));
+    }
+    let total: u64 = order.iter().map(|&i| sizes[i as usize] as u64).sum();
+    let dict = RefDict {
+        application_version: "0.13.0".into(),
+        source_checksum: gen::blake2b512(b"nobody will ever check"),
+        source_total_size: total,
+        params: Some(crate::refmodel::encoder::params_of(&gen::Cfg::fixed(65536), hash_len)),
+        compression: Some((0, 0)),
+        rebuild_order: order.clone(),
+        descriptors: descriptors.clone(),
+        metadata: Default::default(),
+        unknown_fields: 0,
+    };
+    let dict_bytes = encode_dict(&dict, &EncodeStyle::default());
+    let archive = build_header(MAGIC, &dict_bytes, None);
+    let desc = json!({"header_only": true, "declared_source_sizes": sizes, "rebuild_order": order, "declared_total": total});
+    if ctx.want_sample {
+        ctx.verdict.sample = Some(desc.clone());
+    }
+    let reader = IoReader::new(SimFile::drawn(archive));
+    let want_offsets: Vec<u64> = order
+        .iter()
+        .scan(0u64, |o, &i| {
+            let at = *o;
+            *o += sizes[i as usize] as u64;
+            Some(at)
+        })
+        .collect();
+    let (order2, descriptors2, want2) = (order.clone(), descriptors.clone(), want_offsets.clone());
+    let r = run_async(async move {
+        let ar = Archive::try_init(reader).await.map_err(|e| format!("try_init: {}", e))?;
+        if ar.total_source_size() != total {
+            return Err(format!("total_source_size() = {}", ar.total_source_size()));
+        }
+        let got: Vec<(u64, Vec<u8>)> = ar.iter_source_chunks().map(|(o, cd)| (o, cd.checksum.slice().to_vec())).collect();
+        let want: Vec<(u64, Vec<u8>)> = order2.iter().zip(want2.iter()).map(|(&i, &o)| (o, descriptors2[i as usize].checksum.clone())).collect();
+        if got != want {
+            return Err(format!("iter_source_chunks() offsets {:?}, expected {:?}", got.iter().map(|g| g.0).collect::<Vec<_>>(), want2));
+        }
+        let index = ar.build_source_index();
+        for (k, d) in descriptors2.iter().enumerate() {
+            let mut w: Vec<u64> = order2.iter().zip(want2.iter()).filter(|(&i, _)| i as usize == k).map(|(_, &o)| o).collect();
+            w.sort_unstable();
+            let mut g: Vec<u64> = index.offsets(&bitar::HashSum::from(&d.checksum[..])).map(|it| it.collect()).unwrap_or_default();
+            g.sort_unstable();
+            if g != w {
+                return Err(format!("build_source_index(): chunk {} at {:?}, expected {:?}", k, g, w));
+            }
+        }
+        Ok(())
+    });
+    match r {
+        Ok(End::Done(Ok(()))) => {}
+        Ok(End::Done(Err(e))) => {
+            ctx.fail("open-or-report", format!("a conforming header is not opened / reported as encoded: {}; {}", e, desc));
+            return;
+        }
+        Ok(e) => {
+            ctx.fail(&format!("open-{}", e.kind()), format!("opening a conforming header ended with {}; {}", e.kind(), desc));
+            return;
+        }
+        Err(p) => {
+            ctx.fail(&format!("open-panic@{}", p.split(' ').next().unwrap_or("?")), format!("opening a conforming header panicked at {}; {}", p, desc));
+            return;
+        }
+    }
+    simkit::count("probe:header-only-huge-declared-sizes");
+    ctx.verdict.nontrivial = true;
+    ctx.verdict.shape = total ^ (m as u64) << 48;
+}
+
 pub fn run(ctx: &mut Ctx) {
+    if gen::chance(1, 40) {
+        return huge_declared_sizes(ctx);
+    }
     let big = gen::chance(1, if ctx.tier == crate::harness::Tier::Thorough { 50 } else { 600 });
     let cfg = gen::gen_config(false, big);
     let comp = gen::gen_compression();
@@ -42,6 +132,7 @@ pub fn run(ctx: &mut Ctx) {
         let meta_want: BTreeMap<String, Vec<u8>> = metadata.clone();
         let d = enc.dict.clone();
         let (hlen, cdo) = (enc.header_len, enc.chunk_data_offset);
+        let header_sum: Vec<u8> = enc.archive[hlen - 64..hlen].to_vec();
         let r = run_async(async move {
             let ar = match Archive::try_init(reader).await {
                 Ok(a) => a,
@@ -54,14 +145,47 @@ pub fn run(ctx: &mut Ctx) {
             if ar.chunk_hash_length() != hash_len {
                 return Err(format!("chunk_hash_length() = {}", ar.chunk_hash_length()));
             }
-            if ar.chunk_compression() != comp_want {
-                return Err(format!("chunk_compression() = {:?}", ar.chunk_compression()));
+            // (the level is compared through Debug: the fields are private, and the encoder may
+            // have recorded a level bita's own writer would never choose)
+            let level_recorded = d.compression.map(|c| c.1).unwrap_or(0);
+            match (ar.chunk_compression(), comp_want) {
+                (None, None) => {}
+                (Some(got), Some(want)) => {
+                    let (g, w) = (format!("{:?}", got), format!("{:?}", want));
+                    let algo = |s: &str| s.split("algorithm:").nth(1).and_then(|r| r.split(',').next()).map(|a| a.trim().to_string());
+                    if algo(&g) != algo(&w) || !g.contains(&format!("level: {}", level_recorded)) {
+                        return Err(format!("chunk_compression() = {} (encoded: {} with recorded level {})", g, w, level_recorded));
+                    }
+                }
+                (g, _) => return Err(format!("chunk_compression() = {:?}", g)),
             }
             if ar.total_source_size() != d.source_total_size || ar.source_checksum().slice() != &d.source_checksum[..] {
                 return Err("source size / checksum differ".into());
             }
             if ar.header_size() != hlen || ar.chunk_data_offset() != cdo {
                 return Err(format!("header_size() = {} chunk_data_offset() = {} (encoded {} / {})", ar.header_size(), ar.chunk_data_offset(), hlen, cdo));
+            }
+            let stored: u64 = d.descriptors.iter().map(|x| x.archive_size as u64).sum();
+            if ar.compressed_size() != stored {
+                return Err(format!("compressed_size() = {}, the stored chunks have {} bytes", ar.compressed_size(), stored));
+            }
+            if ar.header_checksum().slice() != &header_sum[..] {
+                return Err("header_checksum() differs from the checksum stored in the header".into());
+            }
+            {
+                let mut o = 0u64;
+                for (k, (at, cd)) in ar.iter_source_chunks().enumerate() {
+                    let want = &d.descriptors[d.rebuild_order[k] as usize];
+                    if at != o || cd.checksum.slice() != &want.checksum[..] {
+                        return Err(format!("iter_source_chunks(): item {} is at {} (expected {}) / another chunk", k, at, o));
+                    }
+                    o += want.source_size as u64;
+                }
+            }
+            for (k, v) in meta_want.iter() {
+                if ar.metadata_value(k) != Some(&v[..]) {
+                    return Err(format!("metadata_value({:?}) differs", k));
+                }
             }
             if ar.total_chunks() != d.rebuild_order.len() || ar.unique_chunks() != d.descriptors.len() {
                 return Err(format!("total_chunks() = {} unique_chunks() = {}", ar.total_chunks(), ar.unique_chunks()));
